@@ -3257,7 +3257,14 @@ fn round_hookblocking(seed: u64, hb: &Heartbeat, tot: &Mutex<Tot>, prop: &str) {
             if i % 5 == 2 {
                 // "the timeout variants can also be called from inside an async runtime context": a handler asks its own actor with
                 // blocking_ask(Some(20 ms)) - nobody can answer while the handler blocks, so the call returns Timeout at its deadline
-                match tokio::time::timeout(Duration::from_secs(15), front.ask(SelfBlock(20))).await {
+                let dl0 = UNATTRIBUTED_DEAD_LETTERS.load(Ordering::SeqCst);
+                let selfblock = tokio::time::timeout(Duration::from_secs(15), front.ask(SelfBlock(20))).await;
+                // that call failed (whatever error it reported): exactly one dead letter stands for it
+                let dl = UNATTRIBUTED_DEAD_LETTERS.load(Ordering::SeqCst) - dl0;
+                if matches!(selfblock, Ok(Ok(Some(_)))) && dl != 1 {
+                    viol.push(format!("@C13 iteration {i}: a handler's blocking_ask(Some(20 ms)) to its own (busy) actor failed, and {dl} dead letter(s) were recorded for it instead of 1"));
+                }
+                match selfblock {
                     Ok(Ok(Some(true))) => {}
                     other => {
                         viol.push(format!("@C10 iteration {i}: a handler's blocking_ask(Some(20 ms)) to its own (busy) actor should return Timeout once 20 ms have passed, got {other:?} (None = it was answered, Some(false) = another error, or Timeout before the deadline)"));
@@ -3299,13 +3306,21 @@ fn round_hookblocking(seed: u64, hb: &Heartbeat, tot: &Mutex<Tot>, prop: &str) {
         return;
     }
     *t.nontrivial.entry("C10".into()).or_default() += 1;
+    *t.nontrivial.entry("C13".into()).or_default() += 1;
     *t.obl.entry("C10.timeout_iff").or_default() += done / 5;
+    *t.obl.entry("C13.one_per_failure").or_default() += done / 5;
     for m in viol {
         // the timed self-ask is a timeout matter as well: Timeout iff the deadline passed first, other failures as themselves
         let (c10, m) = match m.strip_prefix("@C10 ") {
             Some(rest) => (true, rest.to_string()),
             None => (false, m),
         };
+        if let Some(rest) = m.strip_prefix("@C13 ") {
+            if prop == "C13" || prop == "all" {
+                t.viol.push(("C13.one_per_failure".into(), format!("[hook-blocking] {rest}"), seed, "hookblocking".into()));
+            }
+            continue;
+        }
         if prop == "C10" {
             if c10 {
                 t.viol.push(("C10.timeout_iff".into(), format!("[hook-blocking] {m}"), seed, "hookblocking".into()));
